@@ -29,6 +29,7 @@ when the harness controls the buffering), the outcome and the final directory eq
 """
 import io
 import itertools
+import json
 import os as real_os
 import shutil
 import signal
@@ -1111,6 +1112,139 @@ def kill_trials(ctx, n_trials, sizes=(400, 3000)):
                             'temporary_files_left_by_kills (allowed: the call did not raise)': leftovers}
 
 
+# ------------------------------------------------------------------------------------------------ fork: two PROCESSES
+FORK_HELPER = r'''
+import builtins, json, os, select, sys, threading
+repo, target, n_parent, n_child = sys.argv[1], sys.argv[2], int(sys.argv[3]), int(sys.argv[4])
+sys.path.insert(0, repo)
+from prometheus_client import CollectorRegistry, Gauge, write_to_textfile      # the library is imported BEFORE the fork
+import prometheus_client.exposition as exposition
+
+
+def registry(tag, n):
+    r = CollectorRegistry()
+    g = Gauge('pv_fork_%s' % tag, 'h', ['k'], registry=r)
+    for j in range(n):
+        g.labels('v%d' % j).set(j + 0.5)
+    return r
+
+
+regs = {'parent': registry('parent', n_parent), 'child': registry('child', n_child)}
+p2c_r, p2c_w = os.pipe()
+c2p_r, c2p_w = os.pipe()
+res_r, res_w = os.pipe()
+pid = os.fork()
+me = 'child' if pid == 0 else 'parent'
+tell, hear = (c2p_w, p2c_r) if me == 'child' else (p2c_w, c2p_r)
+real_open = builtins.open
+seen = {'tmp': None, 'met': None}
+
+
+def wrapped_open(p, mode='r', *a, **kw):
+    f = real_open(p, mode, *a, **kw)
+    try:
+        name = os.path.abspath(os.fspath(p))
+    except TypeError:
+        return f
+    if isinstance(mode, str) and 'w' in mode and name.startswith(os.path.abspath(target) + '.') and seen['tmp'] is None:
+        seen['tmp'] = name
+        os.write(tell, b'o')                          # "I have opened my temporary file"
+        r, _, _ = select.select([hear], [], [], 5.0)  # barrier: wait until the other process has opened its own
+        seen['met'] = bool(r)
+        if r:
+            os.read(hear, 1)
+    return f
+
+
+builtins.open = wrapped_open
+err = None
+try:
+    write_to_textfile(target, regs[me])
+except BaseException as e:      # noqa
+    err = '%s: %s' % (type(e).__name__, e)
+finally:
+    builtins.open = real_open
+out = {'who': me, 'pid': os.getpid(), 'tid': threading.current_thread().ident, 'main_thread': threading.current_thread() is threading.main_thread(),
+       'tmp': seen['tmp'], 'overlapped': seen['met'], 'raised': err}
+if me == 'child':
+    os.write(res_w, json.dumps(out).encode())
+    os._exit(0)
+os.close(res_w)
+os.waitpid(pid, 0)
+child = json.loads(os.read(res_r, 65536).decode() or 'null')
+sys.stdout.write(json.dumps({'parent': out, 'child': child}))
+'''
+
+
+def fork_trials(ctx, olds=(None, b'# previous complete content\nold_metric 1.0\n'), sizes=(40, 5)):
+    """a process that has imported the library forks; parent and child — both on their main thread, so their thread idents
+    are equal — call write_to_textfile on the SAME target with different registries, overlapping between open and rename"""
+    from prometheus_client import CollectorRegistry, Gauge, generate_latest
+    exps = {}
+    for tag, n in zip(('parent', 'child'), sizes):
+        r = CollectorRegistry()
+        g = Gauge('pv_fork_%s' % tag, 'h', ['k'], registry=r)
+        for j in range(n):
+            g.labels('v%d' % j).set(j + 0.5)
+        exps[tag] = generate_latest(r)
+    d = tempfile.mkdtemp(prefix='pv-c18f-')
+    obs_all = []
+    try:
+        script = real_os.path.join(d, 'fork_helper.py')
+        with real_open(script, 'w') as f:
+            f.write(FORK_HELPER)
+        for ti, old in enumerate(olds):
+            sub = real_os.path.join(d, 't%d' % ti)
+            real_os.mkdir(sub)
+            target = real_os.path.join(sub, 'fork.prom')
+            if old is not None:
+                with real_open(target, 'wb') as f:
+                    f.write(old)
+            case = {'kind': 'fork', 'sizes': list(sizes), 'old': None if old is None else old.hex()}
+            try:
+                p = subprocess.run([sys.executable, script, lib.REPO, target, str(sizes[0]), str(sizes[1])],
+                                   stdout=subprocess.PIPE, stderr=subprocess.PIPE, timeout=30)
+            except subprocess.TimeoutExpired:
+                raise lib.Infra('fork helper timed out')
+            try:
+                res = json.loads(p.stdout.decode())
+                par, chi = res['parent'], res['child']
+            except Exception:
+                raise lib.Infra('fork helper failed: rc=%s %s' % (p.returncode, p.stderr.decode('utf-8', 'replace')[-400:]))
+            try:
+                with real_open(target, 'rb') as f:
+                    final = f.read()
+            except FileNotFoundError:
+                final = None
+            left = sorted(n for n in real_os.listdir(sub) if n != 'fork.prom')
+            scen = ('a process imports prometheus_client, then forks; parent (pid %s) and child (pid %s), both on their main thread (thread ident %s / %s), '
+                    'call write_to_textfile on the same target (%s) with different registries, each pausing after open() until the other has opened too'
+                    % (par['pid'], chi['pid'], par['tid'], chi['tid'], 'previously absent' if old is None else 'previously %d bytes' % len(old)))
+            which = 'the parent\'s' if final == exps['parent'] else 'the child\'s' if final == exps['child'] else None
+            summary = ('final target: %s; parent %s; child %s; left behind: %s' % (
+                'complete (%s exposition)' % which if which else show(final) + ' — NOT one of the two complete expositions (%s / %s)'
+                % (show(exps['parent']), show(exps['child'])),
+                'raised ' + par['raised'] if par['raised'] else 'returned', 'raised ' + chi['raised'] if chi['raised'] else 'returned', left or 'nothing'))
+            ctx.case(('fork', ti), None)
+            ctx.count('fork-two-processes')
+            obs_all.append({'previous_target': None if old is None else len(old), 'distinct_tmp_names': par['tmp'] != chi['tmp'],
+                            'overlapped': [par['overlapped'], chi['overlapped']], 'final_target_is': which, 'raised': [par['raised'], chi['raised']],
+                            'left_behind': left})
+            if par['tmp'] is not None and par['tmp'] == chi['tmp']:
+                ctx.fail('C18:tmp-shared-across-processes',
+                         'two concurrently running PROCESSES used the same temporary file %s (the name is not "unique per concurrent writer": the pid in it is '
+                         'not the live pid of the caller) — %s | scenario: %s' % (real_os.path.basename(par['tmp']), summary, scen), case)
+            if which is None:
+                ctx.fail('C18:fork-final-target', '%s | scenario: %s' % (summary, scen), case)
+            if par['raised'] or chi['raised']:
+                ctx.fail('C18:fork-raise', 'a call raised although no fault was injected — %s | scenario: %s' % (summary, scen), case)
+            if left:
+                ctx.fail('C18:tmp-left', 'both calls are over and %s is left behind — %s | scenario: %s' % (left, summary, scen), case)
+    finally:
+        shutil.rmtree(d, ignore_errors=True)
+    ctx.extra['fork_two_processes'] = obs_all
+
+
 # ------------------------------------------------------------------------------------------------ case generation
 STALE = b'stale temporary file of an earlier, killed call\n'
 REGS_QUICK = [
@@ -1294,7 +1428,8 @@ def run(ctx):
                 'partial work 0/1/7 bytes; natural UnicodeEncodeError from a lone surrogate; BaseException classes for the documented limit F16; '
                 "os.name='nt' branch on a subset); every step is a cut point with a reader snapshot. Two writers: ALL C(12,6)=924 interleavings of two "
                 '6-step calls, plus random schedules of longer calls with one writer faulted. A case is non-trivial when it has a fault, a previous '
-                'target or a split write; distinct by (registry, previous target, split, fault position/class/part) resp. (registries, executed order).')
+                'target or a split write. Two PROCESSES: a helper that has imported the library forks, parent and child (equal thread idents) write the '
+                'same target overlapping between open and rename (temporary names must differ). Distinct by (registry, previous target, split, fault position/class/part) resp. (registries, executed order).')
     wide = bool(ctx.broken) or ctx.tier == 'thorough'
     regs = list(REGS_QUICK)
     if wide:
@@ -1311,9 +1446,12 @@ def run(ctx):
     ctx.extra['exhaustive_parts'] = ('unless `cases-not-run-for-lack-of-time` appears in the distribution: ''all fault positions of every listed single-call scenario; all 924 interleavings of two 6-step calls '
                                      '(the space of registries and contents itself is unbounded and is covered by the theorems, not enumerated)')
     t_mid = time.time()
+    fork_trials(ctx)
+    t_fork = time.time()
     kill_trials(ctx, 150 if ctx.tier == 'thorough' else 3)
     ctx.extra['phase_s']['real code + model driver, single calls and two writers'] = round(t_mid - t_start, 1)
-    ctx.extra['phase_s']['SIGKILL trials'] = round(time.time() - t_mid, 1)
+    ctx.extra['phase_s']['two forked processes on one target'] = round(t_fork - t_mid, 1)
+    ctx.extra['phase_s']['SIGKILL trials'] = round(time.time() - t_fork, 1)
     ctx.extra.setdefault('documented_limits', {})
     flush_deferred(ctx)
 
@@ -1326,7 +1464,9 @@ def flush_deferred(ctx):
 def replay(ctx, case):
     c = case.get('case', {})
     print('REPLAY', describe(c) if c.get('kind') in ('single', 'two') else c)
-    if c.get('kind') == 'kill':
+    if c.get('kind') == 'fork':
+        fork_trials(ctx, olds=(unhex(c.get('old')),), sizes=tuple(c.get('sizes', (40, 5))))
+    elif c.get('kind') == 'kill':
         kill_trials(ctx, max(50, int(c.get('trials', 50))), tuple(c.get('sizes', (400, 3000))))
     else:
         eval_cases(ctx, [c])
